@@ -206,6 +206,14 @@ def vf1(ctx, c):
     muts = [n for n in ast.walk(ac.node) if isinstance(n, ast.Call) and isinstance(n.func, ast.Attribute) and U(n.func.value) == "self.coco_file_list"]
     stores = [n for n in ast.walk(ac.node) if isinstance(n, (ast.Assign, ast.AugAssign)) and "coco_file_list" in U(n)]
     appends = [n for n in muts if n.func.attr == "append" and [U(a_) for a_ in n.args] == [p]]
+    # the same append spelled as a concatenation: `list += [file]`, `list = list + [file]`, `list.extend([file])`
+    one = "[%s]" % p
+    spelled = [n for n in stores if (isinstance(n, ast.AugAssign) and isinstance(n.op, ast.Add) and U(n.target) == "self.coco_file_list" and U(n.value) in (one, "(%s,)" % p))
+               or (isinstance(n, ast.Assign) and [U(t_) for t_ in n.targets] == ["self.coco_file_list"] and U(n.value) in ("self.coco_file_list + " + one, "[*self.coco_file_list, %s]" % p))]
+    spelled += [n for n in muts if n.func.attr == "extend" and [U(a_) for a_ in n.args] in ([one], ["(%s,)" % p])]
+    stores = [n for n in stores if n not in spelled]
+    muts = [n for n in muts if n not in spelled]
+    appends = appends + spelled
     others = [n for n in muts if n.func.attr in ("insert", "extend", "pop", "remove", "clear", "reverse", "sort") or (n.func.attr == "append" and n not in appends)]
     if len(appends) == 1 and not others and not stores:
         c.ok("add_coco_file", "appends the file at the end of the list", repo.loc(ac, ac.node))
@@ -278,6 +286,31 @@ def vf1(ctx, c):
 from ..concrete import Obj as _Obj, ClsRef as _ClsRef, Desc as _Desc, run_concrete as _run_concrete
 
 
+def _expand_source_calls(repo, events, notes):
+    """A call of a SourceFile helper that is neither set_buffer nor write_file (say `save_buffer(b)`, which does both) is replaced in the trace
+    by the calls the helper's body makes on the same receiver, evaluated with the values it was given."""
+    sf = repo.classes.get("SourceFile")
+    out = []
+    for e in events:
+        m = sf.methods.get(e[2]) if (sf is not None and e[0] == "call" and "source_file" in e[1]) else None
+        if m is None or e[2] in ("set_buffer", "write_file") or not any(
+                isinstance(x, ast.Call) and U(x.func) in ("self.set_buffer", "self.write_file") for x in ast.walk(m.node)):
+            out.append(e)
+            continue
+        params = [p_ for p_ in m.params if p_ != "self"]
+        sub = dict(zip(params, e[4]))
+        sub.update({k: v for k, v in e[5].items() if k in params})
+        if len(sub) != len(params):
+            out.append(e)
+            continue
+        ev_, nt_ = [], []
+        _run_concrete(body_without_doc(m.node), sub, ev_, nt_)
+        notes.extend(nt_)
+        for x in ev_:
+            out.append((x[0], e[1]) + tuple(x[2:]) if x[0] == "call" and x[1] == "self" else x)
+    return out
+
+
 def vf5(ctx, c):
     """VF-5 the save pipeline evaluated for each container kind: a fresh container of that kind, add_files(the whole list), its buffer handed to
     the source file, the source file written - in that order; add_coco_file records the file; open loads the files already stored."""
@@ -318,6 +351,7 @@ def vf5(ctx, c):
         except RecursionError:
             notes.append("recursion")
             end = None
+        events = _expand_source_calls(repo, events, notes)
         site = "save_virtual_file:%s:pipeline" % kind
         obj = "<%s object>" % kcls
         news = [i for i, e in enumerate(events) if e[0] == "new" and e[1] == kcls]
@@ -993,7 +1027,7 @@ def vf2(ctx, c):
     def only_from_save(q, seen=()):
         if q == "VirtualFile.save_virtual_file":
             return True
-        if q in seen or not q.startswith("VirtualFile."):
+        if q in seen or not q.startswith(("VirtualFile.", "SourceFile.")):       # a helper of either class, itself reached only from the save
             return False
         cs = []
         name = q.split(".")[1]
@@ -1121,6 +1155,43 @@ def vf4(ctx, c):
                 except _NC:
                     continue
                 table_verdict = wrong
+    if table_verdict is None and all(v is not None for v in kv.values()):
+        # the refusal delegated to a helper (require_same_type(name, self.virtual_file_type, detected)): the helper is folded for every pair
+        from ..consteval import fold_body as _fbk, Raised as _Rk, NotConst as _Nk
+        found_names = set()
+        for n_ in ast.walk(ov_flat):
+            if isinstance(n_, ast.Assign) and isinstance(n_.targets[0], ast.Tuple) and len(n_.targets[0].elts) == 2 and "get_coco_files" in U(n_.value):
+                found_names.add(U(n_.targets[0].elts[1]))
+        for n_ in ast.walk(ov_flat):
+            if isinstance(n_, ast.Call) and any(U(a_) == "self.virtual_file_type" for a_ in n_.args) and not n_.keywords:
+                callee = None
+                if isinstance(n_.func, ast.Name):
+                    callee = ov.module.funcs.get(n_.func.id)
+                elif isinstance(n_.func, ast.Attribute) and isinstance(n_.func.value, ast.Name) and n_.func.value.id in ("self", "cls"):
+                    callee = repo.lookup(repo.cls(VF), n_.func.attr)
+                if callee is None:
+                    continue
+                params_ = [p_ for p_ in callee.params if p_ not in ("self", "cls")]
+                if len(params_) != len(n_.args):
+                    continue
+                wrong = []
+                try:
+                    for rq_name, rq in [("none", None)] + list(kv.items()):
+                        for fd_name, fd in kv.items():
+                            envk = dict(ctx.env)
+                            for p_, a_ in zip(params_, n_.args):
+                                envk[p_] = rq if U(a_) == "self.virtual_file_type" else (fd if U(a_) in found_names else "x")
+                            envk["self.virtual_file_type"] = rq
+                            try:
+                                _fbk(body_without_doc(callee.node), envk)
+                                raised = False
+                            except _Rk:
+                                raised = True
+                            if raised != (rq is not None and rq != fd):
+                                wrong.append((rq_name, fd_name, raised))
+                    table_verdict = wrong
+                except _Nk:
+                    pass
     if table_verdict:
         rq_name, fd_name, raised = table_verdict[0]
         c.finding("open_virtual_file:kind-mismatch", "requested %s, found %s: %s" % (rq_name, fd_name, "refused" if raised else "accepted"),
@@ -1128,6 +1199,8 @@ def vf4(ctx, c):
                   "must be refused, one of the same kind accepted" % ("refuses" if raised else "accepts", fd_name, rq_name, len(table_verdict)), where)
     elif table_verdict == [] or ok:
         c.ok("open_virtual_file:kind-mismatch", "an existing file of another kind raises", where)
+    elif not raises and any(isinstance(x, ast.Call) and any("virtual_file_type" in U(a_) for a_ in x.args) for x in ast.walk(ov_flat)):
+        c.undecided("open_virtual_file:kind-mismatch", "the kinds are handed to a helper that was not evaluated", "", where)
     elif not raises:
         c.finding("open_virtual_file:kind-mismatch", "no raise on kind mismatch",
                   "open_virtual_file does not refuse an existing target whose content is of a different container kind than requested", where)
